@@ -18,8 +18,8 @@ import (
 
 	"pgregory.net/rapid"
 
-	"github.com/bartventer/httpcache/store/driver"
 	"github.com/bartventer/httpcache/store"
+	"github.com/bartventer/httpcache/store/driver"
 	"github.com/bartventer/httpcache/store/expapi"
 	"github.com/bartventer/httpcache/store/fscache"
 	"github.com/bartventer/httpcache/store/memcache"
